@@ -55,6 +55,10 @@ pub enum FaultKind {
     /// last child of `<rpc-reply>`: `<data>...</data><rpc-error>`, `<ok/><rpc-error>`,
     /// `<load-configuration-results><ok/></...><rpc-error>`
     PositiveThenError,
+    /// (pipelined loads) the error reply to this load overtakes the replies to the earlier loads
+    /// and is followed at once by a second, positive reply bearing the same message-id; the
+    /// earlier loads are answered afterwards
+    ErrorOvertakesThenDuplicateOk,
     /// two rpc-errors, the first of severity error, the second a warning
     ErrorThenWarning,
     /// two rpc-errors, the first a warning, the second of severity error
@@ -115,7 +119,7 @@ pub fn load_shape(code: u16) -> Vec<ShapeItem> {
     v
 }
 
-pub const FAULT_KINDS: [FaultKind; 17] = [
+pub const FAULT_KINDS: [FaultKind; 18] = [
     FaultKind::RpcError,
     FaultKind::Truncated,
     FaultKind::WrongRoot,
@@ -133,6 +137,7 @@ pub const FAULT_KINDS: [FaultKind; 17] = [
     FaultKind::ErrorThenWarning,
     FaultKind::WarningThenError,
     FaultKind::PositiveThenError,
+    FaultKind::ErrorOvertakesThenDuplicateOk,
 ];
 
 #[derive(Debug, Clone, PartialEq, Eq, Serialize, Deserialize)]
@@ -270,6 +275,7 @@ impl FakeJunos {
             faulted: fault.is_some(),
         };
         let mut out: Vec<Vec<u8>> = Vec::new();
+        let mut overtakes = false;
         match fault.map(|f| f.kind) {
             None => out.push(reply),
             Some(FaultKind::RpcError) => {
@@ -287,6 +293,12 @@ impl FakeJunos {
                     format!("{}{}", e("warning"), e("error"))
                 };
                 out.push(reply_wrap(&id, &body));
+            }
+            Some(FaultKind::ErrorOvertakesThenDuplicateOk) => {
+                record.positive_reply = false;
+                out.push(rpc_error(&id, "injected fault"));
+                out.push(reply);
+                overtakes = true;
             }
             Some(FaultKind::PositiveThenError) => {
                 record.positive_reply = false;
@@ -389,11 +401,21 @@ impl FakeJunos {
         }
         match self.withhold_until_loads {
             Some(n) if is_load && !res.close && self.loads_in_session < n => {
-                self.withheld.append(&mut out);
+                if overtakes {
+                    out.append(&mut self.withheld);
+                    self.withheld = out;
+                } else {
+                    self.withheld.append(&mut out);
+                }
             }
             _ => {
-                res.replies.append(&mut self.withheld);
-                res.replies.append(&mut out);
+                if overtakes {
+                    res.replies.append(&mut out);
+                    res.replies.append(&mut self.withheld);
+                } else {
+                    res.replies.append(&mut self.withheld);
+                    res.replies.append(&mut out);
+                }
             }
         }
         if op.name == "close-session" {
